@@ -174,6 +174,52 @@ def run_twice(order, alt, subset):
     return obs["observed"] == obs["expected"], obs
 
 
+# ---- family 5: a '+m:' expression registered as a string vs written in the grammar, on multi-file models -----------------
+LOADER_MODELS = {"no-reference": ('import "lib.m" d x', "d y"), "with-reference": ('import "lib.m" d x u y', "d y"), "missing-import": ('import "missing.m" d x', "d y"),
+                 "missing-import-with-reference": ('import "missing.m" d x u x', "d y")}
+
+
+def run_loader(model_name):
+    """both forms must load the same files (also when the model holds no reference that uses the expression) and fail alike"""
+    import os
+
+    from mc import core
+    from textx import metamodel_from_str
+
+    d = os.path.join(core.rundir(), "c32l-%d" % os.getpid())
+    os.makedirs(d, exist_ok=True)
+    main, lib = LOADER_MODELS[model_name]
+    for fn, t in (("main.m", main), ("lib.m", lib)):
+        with open(os.path.join(d, fn), "w") as f:
+            f.write(t)
+    g = "Model: imports*=Import defs*=D uses*=U; Import: 'import' importURI=STRING; D: 'd' name=ID; U: 'u' ref=[D:ID%s];"
+    out = {}
+    for form in ("grammar", "registered"):
+        mm = metamodel_from_str(g % ("|+m:defs" if form == "grammar" else ""))
+        if form == "registered":
+            mm.register_scope_providers({"U.ref": "+m:defs"})
+        try:
+            m = mm.model_from_file(os.path.join(d, "main.m"))
+            repo = getattr(m, "_tx_model_repository", None)
+            out[form] = ("loaded", sorted(os.path.basename(k) for k in repo.all_models.filename_to_model) if repo is not None else None,
+                         [getattr(u.ref, "name", None) for u in m.uses])
+        except Exception as e:
+            out[form] = ("error", type(e).__name__)
+    return out["grammar"] == out["registered"], {"family": "+m: loader", "model": main, "grammar_form": out["grammar"], "registered_form": out["registered"]}
+
+
+def work5(cs):
+    u = Unit()
+    for name in cs:
+        with watchdog(20):
+            ok, obs = run_loader(name)
+        u.case(["loader", name], nontrivial=True, sample=obs)
+        u.count("family5-model-loader")
+        if not ok:
+            u.fail(["loader", name], {"loader": name}, sig="loader " + name, what=repr(obs)[:500])
+    return u
+
+
 def work4(cs):
     u = Unit()
     for c in cs:
@@ -362,7 +408,9 @@ def run(ctx):
     ctx.pmap(work3, [c3[i:i + 64] for i in range(0, len(c3), 64)])
     c4 = [(order, alt, subset) for order in (0, 1) for alt in ("x", "y") for subset in itertools.product((False, True), repeat=4)]
     ctx.pmap(work4, [c4[i:i + 16] for i in range(0, len(c4), 16)])
+    ctx.pmap(work5, [list(LOADER_MODELS)])
     return {
+        "family5": "'+m:defs' written in the grammar vs registered as a string on %d two-file models (with / without a reference that uses it, existing / missing import): same files loaded, same outcome" % len(LOADER_MODELS),
         "family4": "attribute r assigned in two alternatives, one with the RREL 'alts' and one without, in both orders x matched alternative x every subset of the 4 keys",
         "rule": "case = (reference site in {U.a, U.b, U.l(list), V.a}) x (subset of its 4 applicable keys) x (which registered key is an RREL "
                 "string, if any) x (RREL in the grammar on that site or not) x (distracting keys of other rule/attribute registered or not); "
@@ -377,6 +425,8 @@ def run(ctx):
 def replay(p):
     if "multi" in p:
         return run_multi(*p["multi"])
+    if "loader" in p:
+        return run_loader(p["loader"])
     if "twice" in p:
         c = p["twice"]
         return run_twice(c[0], c[1], tuple(c[2]))
